@@ -225,7 +225,7 @@ class Contract:
 
     def __init__(self, fn, real, requires=(), ensures=(), assigns=None, build=None, unwind=1, backends=('sat',),
                  replace=(), kind='F', bounded=None, timeout=300, sig=None, tier='quick', uses=(), flags=(),
-                 poison_flags=False, note='', uf_float=(), rel=None):
+                 poison_flags=False, note='', uf_float=(), rel=None, assumed_ensures=None):
         self.fn, self.real = fn, real
         self.requires, self.ensures = list(requires), list(ensures)
         self.assigns = assigns
@@ -237,6 +237,9 @@ class Contract:
         self.flags = list(flags)
         self.poison_flags = poison_flags
         self.uf_float = tuple(uf_float)
+        # what callers may assume when this contract replaces a call: by default the ensures themselves; optionally the same facts
+        # stated with an ABSTRACT (uninterpreted) predicate, so that caller proofs are parametric in the predicate (see C07)
+        self.assumed_ensures = list(assumed_ensures) if assumed_ensures else None
         self.rel = rel   # (other build tag, [function names]): extracted from another build with prefix R_ (relational contracts)
         self.note = note
 
@@ -549,10 +552,24 @@ def rel_wrappers(rel_sigs, cxx=False):
     return L
 
 
-def harness_text(c, sig, gen_text, extra_requires=(), ensures_override=None, canary=True, rel_sigs=None, keep_sigs=None):
+def harness_text(c, sig, gen_text, extra_requires=(), ensures_override=None, canary=True, rel_sigs=None, keep_sigs=None, callee_contracts=None):
     """C file: generated code + contract declaration + harness.  returns (text, {line: clause name})"""
     L = ['#define LL2C_CBMC 1', gen_text, '#include "specs.h"'] + (rel_wrappers(rel_sigs) if rel_sigs else [])
-    params = ['%s %s' % (t, n) for t, n in sig['ins']] + ['%s *%s' % (t, n) for t, n, cnt in sig['outs']]
+    params = ['%s %s' % (t, n) for t, n in sig['ins']] + ['%s *%s' % (t, n) for t, n, cnt in sig.get('ptr_ins', [])] + \
+        ['%s *%s' % (t, n) for t, n, cnt in sig['outs']]
+    # contracts of the callees that are replaced at their call sites (assumed there; enforced by their own obligation in this run)
+    for (cc, csig) in (callee_contracts or []):
+        cparams = ['%s %s' % (t, n) for t, n in csig['ins']] + ['%s *%s' % (t, n) for t, n, cnt in csig.get('ptr_ins', [])] + \
+            ['%s *%s' % (t, n) for t, n, cnt in csig['outs']]
+        L.append('/* callee contract (assumed at call sites): %s */' % cc.fn)
+        L.append('%s %s(%s)' % (csig['ret'], cc.fn, ', '.join(cparams) or 'void'))
+        for name, e in cc.requires:
+            L.append('__CPROVER_requires(%s)' % clause_expr(e))
+        casg = cc.assigns if cc.assigns is not None else ['__CPROVER_object_whole(%s)' % n for t, n, cnt in csig['outs']]
+        L.append('__CPROVER_assigns(%s)' % ', '.join(casg))
+        for name, e in (getattr(cc, 'assumed_ensures', None) or cc.ensures):
+            L.append('__CPROVER_ensures(%s)' % clause_expr(e))
+        L.append(';')
     L.append('/* contract for %s (%s) */' % (c.fn, c.real))
     L.append('%s %s(%s)' % (sig['ret'], c.fn, ', '.join(params) or 'void'))
     lines = {}
@@ -585,6 +602,12 @@ def harness_text(c, sig, gen_text, extra_requires=(), ensures_override=None, can
     args = []
     for t, n in sig['ins']:
         L.append('  %s %s = %s;' % (t, n, NONDET[t]))
+        args.append(n)
+    for t, n, cnt in sig.get('ptr_ins', []):
+        # pointer INPUT of an internal (non-shim) function: harness-owned buffer with nondeterministic content
+        L.append('  %s %s[%d];' % (t, n, cnt))
+        for i in range(cnt):
+            L.append('  %s[%d] = %s;' % (n, i, NONDET[t]))
         args.append(n)
     for t, n, cnt in sig['outs']:
         L.append('  %s %s[%d];' % (t, n, cnt))
